@@ -313,13 +313,18 @@ class PropertyRun:
         # same position among its namesakes, and insist on the same path trace - never a sibling
         same = [o for o in rep.obligations if isinstance(o, LightOb) and o.alt == ob.alt and o.label == ob.label]
         reals = [r for r in full.obligations if r.label == ob.label]
+        def same_trace(r):
+            # a worker reports the tail of the path trace only
+            lt, rt = list(ob.trace or []), list(getattr(r, "trace", []) or [])
+            return rt == lt or (len(lt) > 0 and rt[-len(lt):] == lt)
+
         cand = None
         if len(reals) == len(same) and ob in same:
             cand = reals[same.index(ob)]
-            if list(getattr(cand, "trace", []) or []) != list(ob.trace or []):
+            if not same_trace(cand):
                 cand = None
         if cand is None:
-            match = [r for r in reals if list(getattr(r, "trace", []) or []) == list(ob.trace or [])]
+            match = [r for r in reals if same_trace(r)]
             cand = match[0] if len(match) == 1 else None
         if cand is None:
             return full, None
